@@ -266,6 +266,7 @@ class Printer:
         self.p, self.name, self.style = p, name, style
         self.pos = {}  # deref id -> (relative file, line, col)
         self.cpos = {}  # call site id -> (relative file, line, col of the call expression, col of its first argument)
+        self.sret = set()  # (relative file, line) of the returns whose error operand is the sentinel
 
     def pick(self, n):
         return self.style.randrange(n) if self.style is not None else 0
@@ -290,6 +291,8 @@ class Printer:
             return "*" + q + "T"
         if ty == "E":
             return "error"
+        if ty == "B":
+            return "bool"
         return "%sI%d" % (q, ty[1])
 
     def implname(self, j, k):
@@ -305,7 +308,7 @@ class Printer:
         if v[0] == "L":
             if v[1] < self.cur_np:
                 return "p%d" % v[1]
-            return {"T": "x%d", "E": "e%d"}.get(self.ltype(self.cur_fd, v[1]), "y%d") % v[1]
+            return {"T": "x%d", "E": "e%d", "B": "b%d"}.get(self.ltype(self.cur_fd, v[1]), "y%d") % v[1]
         gk = self.p["gpkg"][v[1]]
         return ("G%d" % v[1]) if gk == k else "%s.G%d" % (self.pkgname(gk), v[1])
 
@@ -381,6 +384,11 @@ class Printer:
         kind = c[0]
         if kind == "opaque":
             return ("!rt.Opaque()" if neg else "rt.Opaque()"), []
+        if kind == "nonnil" and self.is_bool(c[1]):
+            # an ok variable: "the error is non-nil" is "not ok"
+            x = self.var(c[1], k)
+            forms = (["%s", "%s == true", "true == %s"] if neg else ["!%s", "%s == false", "%s != true"])
+            return forms[self.pick(len(forms)) if self.okforms else 0] % x, []
         if kind == "nonnil":
             x = self.var(c[1], k)
             if not neg:
@@ -415,6 +423,25 @@ class Printer:
             return a + " " + op + " " + b, da + [(d, o + len(a) + len(op) + 2) for d, o in db]
         raise ValueError(c)
 
+    okforms = True     # spell ok tests also as comparisons with the constants
+
+    def is_bool(self, v):
+        return v[0] == "L" and v[1] >= self.cur_np and self.ltype(self.cur_fd, v[1]) == "B"
+
+    def errexpr(self, ev, k, ok):
+        """the second operand of a return / the right-hand side of an assignment to an error or ok variable"""
+        if ok:
+            return "true" if ev == "nil" else ("false" if ev == "new" else self.var(ev, k))
+        if ev == "nil":
+            return "nil"
+        if ev == "new":
+            if self.p.get("sentinel") and self.pick(2) == 1:
+                sk = self.p["sentinel_pkg"]
+                self.used_sentinel = True
+                return ("" if sk == k else self.pkgname(sk) + ".") + "ErrS"
+            return 'errors.New("x")'
+        return self.var(ev, k)
+
     def emit(self, text, derefs=(), calls=()):
         self.lines.append(text)
         ln = len(self.lines)
@@ -430,6 +457,8 @@ class Printer:
             return
         if kind == "seq":
             self.stmt(s[1], k, ind); self.stmt(s[2], k, ind)
+        elif kind == "assign" and s[1][0] == "L" and self.ltype(self.cur_fd, s[1][1]) in ("E", "B") and s[1][1] >= self.cur_np:
+            self.emit("%s%s = %s" % (t, self.var(s[1], k), self.errexpr(s[2], k, self.is_bool(s[1]))))
         elif kind == "assign":
             self.emit("%s%s = %s" % (t, self.var(s[1], k), self.atom(s[2], k)[0]))
         elif kind == "call":
@@ -456,9 +485,26 @@ class Printer:
         elif kind == "return":
             self.emit("%sreturn %s" % (t, self.atom(s[1], k)[0]))
         elif kind == "return2":
-            ev = s[2]
-            et = "nil" if ev == "nil" else ('errors.New("x")' if ev == "new" else self.var(ev, k))
-            self.emit("%sreturn %s, %s" % (t, self.atom(s[1], k)[0], et))
+            self.used_sentinel = False
+            et = self.errexpr(s[2], k, self.cur_fd.get("okform"))
+            at = self.atom(s[1], k)[0]
+            sent = self.used_sentinel
+            if self.cur_fd.get("named"):
+                # (a bare return hides a constant ok operand in a variable: outside the convention as NilAway reads it)
+                sp = 2 if self.cur_fd.get("okform") else self.pick(3)
+                if sp == 0:
+                    self.emit("%sr0, r1 = %s, %s" % (t, at, et))
+                    self.emit("%sreturn" % t)
+                elif sp == 1:
+                    self.emit("%sr0 = %s" % (t, at))
+                    self.emit("%sr1 = %s" % (t, et))
+                    self.emit("%sreturn" % t)
+                else:
+                    self.emit("%sreturn %s, %s" % (t, at, et))
+            else:
+                self.emit("%sreturn %s, %s" % (t, at, et))
+            if sent:
+                self.sret.add((self.curfile, len(self.lines)))
         elif kind == "call2":
             ct, sites = self.callexpr(s[3], s[4], k, s[5])
             pre = "%s%s, %s = " % (t, "_" if s[1] is None else self.var(s[1], k), "_" if s[2] is None else self.var(s[2], k))
@@ -477,7 +523,7 @@ class Printer:
         # switch spellings for a plain nil test
         base = c[1] if c[0] == "not" and c[1][0] == "nonnil" else c
         isnil_test = c[0] == "not" and c[1][0] == "nonnil"
-        if base[0] == "nonnil" and self.pick(4) == 3:
+        if base[0] == "nonnil" and not self.is_bool(base[1]) and self.pick(4) == 3:
             x = self.var(base[1], k)
             nilbr, nonbr = (a, b) if isnil_test else (b, a)
             if self.pick(2) == 0:
@@ -538,6 +584,8 @@ class Printer:
             for j, im in enumerate(p.get("impls") or []):
                 if im["pkg"] == k:
                     self.emit("type S%d struct{ W int }" % j)
+            if p.get("sentinel") and p["sentinel_pkg"] == k:
+                self.emit('var ErrS = errors.New("s")')
             for g, gk in enumerate(p["gpkg"]):
                 if gk == k:
                     if p["ginit"][g]:
@@ -561,7 +609,8 @@ class Printer:
                 params = ["p%d %s" % (i, self.tyname(ptypes[i], k)) for i in range(fd["nparams"])]
                 rty = self.tyname(fd.get("rtype", "T"), k)
                 if fd.get("err"):
-                    rty = "(%s, error)" % rty
+                    second = "bool" if fd.get("okform") else "error"
+                    rty = ("(r0 %s, r1 %s)" if fd.get("named") else "(%s, %s)") % (rty, second)
                 if fd.get("impl"):
                     j, m = fd["impl"]
                     recv = ("p0 S%d" if p["impls"][j].get("valrecv") else "p0 *S%d") % j
@@ -575,12 +624,16 @@ class Printer:
                 for x in ls:
                     bytype.setdefault(self.tyname(self.ltype(fd, x), k), []).append(x)
                 for tn in sorted(bytype):
-                    names = [("x%d" if tn.startswith("*") else ("e%d" if tn == "error" else "y%d")) % x for x in bytype[tn]]
-                    self.emit("\tvar %s %s" % (", ".join(names), tn))
+                    names = [("x%d" if tn.startswith("*") else ("e%d" if tn == "error" else ("b%d" if tn == "bool" else "y%d"))) % x for x in bytype[tn]]
+                    if tn == "bool":
+                        # an unassigned error is nil: an unassigned ok is true
+                        self.emit("\tvar %s %s = %s" % (", ".join(names), tn, ", ".join("true" for _ in names)))
+                    else:
+                        self.emit("\tvar %s %s" % (", ".join(names), tn))
                     self.emit("\t%s = %s" % (", ".join("_" for _ in names), ", ".join(names)))
                 self.stmt(fd["body"], k, 1)
                 if falls(fd["body"]):
-                    self.emit("\treturn nil, nil" if fd.get("err") else "\treturn nil")
+                    self.emit(("\treturn nil, true" if fd.get("okform") else "\treturn nil, nil") if fd.get("err") else "\treturn nil")
                 self.emit("}")
                 self.emit("")
             out[self.curfile] = "\n".join(self.lines) + "\n"
